@@ -35,10 +35,11 @@ def driverLine (inp obs : List String) : Bool × Bool × String × String :=
     match parseSvc svc with
     | none => (false, false, "bad-line", "")
     | some svc =>
-      let r : Req := { svc := svc, tls := tls == "1", tcpcheck := tc == "1", connect := m == "CONNECT",
+      let r : Req := { svc := svc, tls := tls != "0", alpnH2 := tls == "2", tcpcheck := tc == "1", connect := m == "CONNECT",
                        scheme := optS sc, host := optS h, port := if p == "-" then none else some (natTok p),
                        ver := parseVer v, nameValid := nv == "1",
-                       badLength := (m == "POST" || m == "PUT") && hs.contains "content-length=0" }
+                       badLength := ((m == "POST" || m == "PUT") && hs.contains "content-length=0") ||
+                                    (let tes := hs.filter (·.startsWith "te="); tes.head? == some "te=trailers" && tes.any (· != "te=trailers")) }
       let mo := showOut (run r)
       let cls : Option String :=
         if out == "panic" then some "C17/panic-in-caller"
